@@ -265,17 +265,17 @@ func (r *yieldRewriter) rewriteStmt(
 	case *ast.SwitchStmt:
 		// ↓↓ non-trival branch ↓↓
 		// &stmt.Init maybe ptr of typed nil
-		return r.rewriteSwitchStmt(
+		return r.lastSwitch(isLast, r.rewriteSwitchStmt(
 			stmt, &stmt.Init, stmt.Tag, stmt.Body, &stmt.Switch, children,
-		)
+		))
 
 	case *ast.TypeSwitchStmt:
 		// ↓↓ non-trival branch ↓↓
 		trivalAssign := r.mustNoYield(stmt.Assign)
 		r.assert(trivalAssign, stmt.Assign, "yield not allowed")
-		return r.rewriteSwitchStmt(
+		return r.lastSwitch(isLast, r.rewriteSwitchStmt(
 			stmt, &stmt.Init, stmt.Assign, stmt.Body, &stmt.Switch, children,
-		)
+		))
 
 	case *ast.ForStmt:
 		// ↓↓ non-trival branch ↓↓
@@ -306,6 +306,16 @@ func (r *yieldRewriter) rewriteStmt(
 	}
 }
 
+// like a yielding if-stmt: when a yielding switch is the last statement of a
+// callback body (also of a loop body), make sure every path ends with a return
+func (r *yieldRewriter) lastSwitch(isLast bool, children *block) *block {
+	if isLast && children != nil && children.len() > 0 && children.lastKind() == kindSwitch {
+		r.generateLastNormalIfNecessary(children)
+		return nil // no following
+	}
+	return children
+}
+
 func (r *yieldRewriter) rewriteBlockStmt(
 	body *ast.BlockStmt,
 	kind stmtKind,
@@ -318,6 +328,11 @@ func (r *yieldRewriter) rewriteBlockStmt(
 // additional return-normal() required
 // when last stmt is kindIf / kindSwitch / kindTrival
 func (r *yieldRewriter) generateLastNormalIfNecessary(children *block) {
+	if children.kind == kindSwitch {
+		// a case body that does not end in a return falls out of the switch
+		// statement natively; the code following the switch supplies the return
+		return
+	}
 	if children.returnNormalRequired(r.isTerminating) {
 		// markCombined manually, cause of no need to check
 		// when normal return required
